@@ -1289,8 +1289,13 @@ class RunningOrderEnd(MosFile):
         Adds a ``mosromgrmeta`` tag containing the ``roDelete`` tag from the
         ``roDelete`` message to the ``roCreate`` tag in the running order.
         """
+        ro_delete = self.base_tag
+        if ro_delete is None:
+            raise MosMergeError(
+                f"{self.__class__.__name__} error in {self._message_label} - roDelete not found"
+            )
         mosromgrmeta = SubElement(ro.xml, 'mosromgrmeta')
-        mosromgrmeta.append(copy.deepcopy(self.base_tag))
+        mosromgrmeta.append(copy.deepcopy(ro_delete))
         return ro
 
     def inspect(self):
